@@ -28,6 +28,9 @@ TABLE = {
         # BulletproofGens::new can only fail on a party index above u32::MAX
         'extra': [((), ('succ', 'new(p1,p2)'))],
     },
+    # reached through RangeParameters::init: fails only when a party index does not fit u32 (the derivation label has 4 index bytes);
+    # any other rejection here narrows the documented domain of RangeParameters::init
+    'BulletproofGens::<P>::new': {'expected': [], 'extra': [lambda c, a: a[0] == 'succ' and a[1].startswith('try_from(idx(') and any(x[0] == 'forall' for x in c)]},
     'RangeStatement::<P>::init': {
         'expected': [((), P('is_power_of_two', 'len(p2)')), ((), ('cmp', 'Eq', 'len(p2)', 'len(p3)')),
                      ((), ('cmp', 'Le', 'len(p2)', 'p1.bp_gens.party_capacity')),
@@ -63,6 +66,31 @@ STORED = {
 }
 
 
+def stored_fields(ctx, only=None):
+    """R-C17-3: the constructed object stores the caller's arguments themselves (shared with C05 / C07 / C09: the statement the
+    prover and the verifier read is the one the caller built).  `only`: {constructor suffix: [fields]} to restrict."""
+    rep = ctx.rep
+    for suffix, fields in STORED.items():
+        if only is not None and suffix not in only:
+            continue
+        body = ctx.fn(suffix, 'R-C17-3')
+        if body is None:
+            continue
+        rt = ctx.eng.return_term(body)
+        adts = [x for x in walk(rt) if x.tag == 'adt' and not x[1].startswith('std::') and 'ProofError' not in x[1]]
+        if not adts:
+            rep.anchor_missing('R-C17-3', 'R-C17-3/%s/aggregate' % suffix, 'no aggregate of the constructed type in the return value of %s' % body.path)
+            continue
+        a = adts[0]
+        got = {f: canon(x) for f, x in a[2]}
+        for f, want in fields.items():
+            if only is not None and f not in only[suffix]:
+                continue
+            rep.check(got.get(f) == want, 'R-C17-3', 'R-C17-3/%s/%s' % (suffix, f),
+                      'field %s of the constructed value is %s' % (f, want),
+                      'field %s of the constructed value is %s, expected the unadjusted %s' % (f, got.get(f), want), ctx.where(body))
+
+
 def run(ctx):
     rep = ctx.rep
     n_guards = 0
@@ -72,6 +100,26 @@ def run(ctx):
             continue
         rows = compare_table(ctx, 'R-C17-1', suffix, body, tab['expected'], tab['extra'])
         n_guards += len(rows)
+        # the table is closed under propagation: a crate function whose failure this constructor hands on (in its own body or in a
+        # closure it runs) decides part of the constructor's domain, so it must have a table of its own
+        seen_c = set()
+        work = [body]
+        while work:
+            b0 = work.pop()
+            for _, cal in ctx.facts.local_callees(b0):
+                if cal.key in seen_c:
+                    continue
+                seen_c.add(cal.key)
+                if cal.is_closure:
+                    work.append(cal)
+                    continue
+                rty = cal.locals[0]['ty']
+                if not (rty.startswith('std::result::Result<') or rty.startswith('std::option::Option<')):
+                    continue
+                tabled = any(cal.path.endswith('::' + k) or cal.path == k or cal.path.endswith(k) for k in TABLE)
+                rep.check(tabled, 'R-C17-1', 'R-C17-1/%s/propagates/%s' % (suffix, cal.path.split('::')[-1] if not cal.path.startswith('<') else cal.path[-40:]),
+                          'the fallible crate function %s reached from this constructor has a domain table of its own' % cal.path,
+                          'the constructor hands on the failure of %s, whose rejections are not tabled: its domain is not decided' % cal.path, ctx.where(body))
     rep.floor('R-C17-1', 'constructor guards', n_guards, 19)
 
     # R-C17-2 arm -> variant mapping of try_from(u8)
@@ -98,21 +146,7 @@ def run(ctx):
         rep.floor('R-C17-2', 'try_from arms', nmap, 6)
 
     # R-C17-3 stored values are the arguments
-    for suffix, fields in STORED.items():
-        body = ctx.fn(suffix, 'R-C17-3')
-        if body is None:
-            continue
-        rt = ctx.eng.return_term(body)
-        adts = [x for x in walk(rt) if x.tag == 'adt' and not x[1].startswith('std::') and 'ProofError' not in x[1]]
-        if not adts:
-            rep.anchor_missing('R-C17-3', 'R-C17-3/%s/aggregate' % suffix, 'no aggregate of the constructed type in the return value of %s' % body.path)
-            continue
-        a = adts[0]
-        got = {f: canon(x) for f, x in a[2]}
-        for f, want in fields.items():
-            rep.check(got.get(f) == want, 'R-C17-3', 'R-C17-3/%s/%s' % (suffix, f),
-                      'field %s of the constructed value is %s' % (f, want),
-                      'field %s of the constructed value is %s, expected the unadjusted %s' % (f, got.get(f), want), ctx.where(body))
+    stored_fields(ctx)
 
     # no panic in constructors: shared enumeration with C16
     roots = [ctx.fn(s, 'R-C17-5', required=False) for s in list(TABLE) + ['CommitmentOpening::new', 'ExtendedMask::blindings']]
